@@ -183,7 +183,7 @@ class Index:
         if mangled:
             c = [f for f in c if f['mangled'] == mangled]
         if sig:
-            c = [f for f in c if sig in f['type']]
+            c = [f for f in c if sig.replace('bpp::', '') in f['type'].replace('bpp::', '')]
         if targs is not None:
             c = [f for f in c if f['targs'] == targs]
         # identical redeclarations dumped twice (filter matches both record and out-of-line def): dedupe by mangled
@@ -216,7 +216,7 @@ BUILTIN = {
 }
 
 def strip_cv(t):
-    t = t.strip()
+    t = t.strip().replace('*const', '* const').replace('&const', '& const')
     changed = True
     while changed:
         changed = False
@@ -295,6 +295,26 @@ def ptrlike(t):
         return None
     return t[i:j].strip()
 
+ITER_RE = re.compile(r'^(?:__gnu_cxx::)?__normal_iterator<')
+
+def iterlike(t):
+    """pointer type string P when t is __gnu_cxx::__normal_iterator<P, C> (vector / string iterators = raw pointers)"""
+    t = norm_class(t)
+    m = ITER_RE.match(t)
+    if not m:
+        return None
+    i = m.end(); d = 0; j = i
+    while j < len(t):
+        ch = t[j]
+        if ch == '<': d += 1
+        elif ch == '>':
+            if d == 0: break
+            d -= 1
+        elif ch == ',' and d == 0:
+            break
+        j += 1
+    return t[i:j].strip()
+
 def element_type_alias(t):
     """std::__shared_ptr_access<T,...>::element_type -> T"""
     m = re.match(r'^(std::__shared_ptr_access<.*>)::element_type$', t)
@@ -326,7 +346,7 @@ class Types:
             return self.base(ea)
         if k in self.table:
             return self.table[k]
-        if re.match(r'^[A-Za-z_][A-Za-z0-9_:<>, ]*$', k):
+        if re.match(r'^[A-Za-z_][A-Za-z0-9_:<>, *]*$', k):
             return mangle(k)
         raise ExtractionBreak('no C type for %r' % t)
 
@@ -360,6 +380,9 @@ class Types:
         pl = ptrlike(t2)
         if pl is not None:
             return self._c(pl) + '*'
+        il = iterlike(t2)
+        if il is not None:
+            return self._c(il)
         m = re.match(r'^(.*)\[(\d+)\]$', t2)
         if m:
             return self._c(m.group(1)) + '*'
@@ -377,7 +400,7 @@ class Types:
 
     def is_scalar(self, tobj):
         t = strip_cv(self.qt(tobj))
-        if t.endswith('*') or ptrlike(t) is not None or t in ('std::nullptr_t', 'nullptr_t'):
+        if t.endswith('*') or ptrlike(t) is not None or iterlike(t) is not None or t in ('std::nullptr_t', 'nullptr_t'):
             return True
         return t in BUILTIN or t.startswith('enum ')
 
@@ -709,7 +732,7 @@ class FnLower:
     def construct_into(self, target, u, decl=None):
         """statements constructing an object of class type in place: target is an lvalue text"""
         cls = self.T.cls(u['type'])
-        if ptrlike(cls) is not None:
+        if ptrlike(cls) is not None or iterlike(cls) is not None:
             return [('%s %s = %s;' % (decl, target, self.expr(u))) if decl else '%s = %s;' % (target, self.expr(u))]
         cty = self.T.base(cls)
         args = list(u.get('inner', []))
@@ -728,6 +751,8 @@ class FnLower:
                 fn = self.resolve_ctor(cls, 'copy', u)
                 r.append('%s(%s, %s);' % (fn, self.addr(target), self.addr(src)))
             return r
+        if not args and cls in self.cfg.plain and ('ctor', cls, 0) not in self.cfg.rename:
+            return r      # implicit default constructor of a plain class: no effect
         fn = self.resolve_ctor(cls, len(args), u)
         al = self.args(fn, args)
         r.append('%s(%s);' % (fn, ', '.join([self.addr(target)] + al)))
@@ -982,7 +1007,7 @@ class FnLower:
                 self.brk(n, 'member call through %s' % me.get('kind'))
             obj = me['inner'][0]
             cls = self.T.cls(obj['type'])
-            if ptrlike(cls) is not None:
+            if ptrlike(cls) is not None or iterlike(cls) is not None:
                 return None
             nargs = len(n['inner']) - 1
             return self.resolve_member(cls, me['name'], nargs, n)
@@ -992,6 +1017,8 @@ class FnLower:
             name = rd.get('name')
             args = n['inner'][1:]
             if args and any(ptrlike(self.T.cls(a['type'])) is not None for a in args[:2]) and name in ('operator->', 'operator*', 'operator=', 'operator==', 'operator!=', 'operator bool'):
+                return None
+            if args and iterlike(self.T.cls(args[0]['type'])) is not None:
                 return None
             if rd.get('kind') == 'CXXMethodDecl':
                 cls = self.T.cls(args[0]['type'])
@@ -1008,7 +1035,7 @@ class FnLower:
             self.brk(n, 'indirect call')
         if k in ('CXXConstructExpr', 'CXXTemporaryObjectExpr'):
             cls = self.T.cls(n['type'])
-            if ptrlike(cls) is not None:
+            if ptrlike(cls) is not None or iterlike(cls) is not None:
                 return None
             if self.is_copy_ctor(n) and len(n.get('inner', [])) == 1:
                 a = n['inner'][0]
@@ -1044,11 +1071,20 @@ class FnLower:
             # free operators are keyed by the classes of their operands
             acls = tuple(self.T.cls(a['type']) for a in argnodes)
             keys = [(name,) + acls] + keys
+        fn = None
         for key in keys:
             if key in self.cfg.free:
                 fn = self.cfg.free[key]
+                if isinstance(fn, list):     # [(substring of the callee's type, C name), ...]
+                    for sub, cn in fn:
+                        if sub.replace('bpp::', '') in (ftype or '').replace('bpp::', ''):
+                            fn = cn
+                            break
+                    else:
+                        fn = None
+                        continue
                 break
-        else:
+        if fn is None:
             if name.startswith('operator'):
                 acls = [mangle(self.T.cls(a['type'])) for a in (argnodes or [])]
                 fn = '%s__%s' % (cname_of_member(name), '__'.join(acls))
@@ -1311,6 +1347,10 @@ class FnLower:
 
     def e_CXXMemberCallExpr(self, n, stmt=False):
         me = unwrap(n['inner'][0])
+        if me.get('kind') == 'MemberExpr' and iterlike(self.T.cls(me['inner'][0]['type'])) is not None:
+            if me['name'] == 'base':
+                return self.expr(me['inner'][0])
+            self.brk(n, 'iterator member %s' % me['name'])
         if me.get('kind') == 'MemberExpr' and ptrlike(self.T.cls(me['inner'][0]['type'])) is not None:
             o = self.expr(me['inner'][0])
             nm = me['name']
@@ -1347,6 +1387,21 @@ class FnLower:
         cal = unwrap_casts(n['inner'][0])
         rd = cal.get('referencedDecl', {})
         args = n['inner'][1:]
+        if args and iterlike(self.T.cls(args[0]['type'])) is not None:
+            nm = rd.get('name')
+            op = nm[len('operator'):]
+            a0 = self.expr(args[0])
+            if op == '*' and len(args) == 1:
+                return '(*%s)' % a0
+            if op == '->':
+                return a0
+            if op in ('++', '--'):
+                return '(%s%s)' % (a0, op) if len(args) == 2 else '(%s%s)' % (op, a0)
+            if op in ('+', '-', '+=', '-=', '==', '!=', '<', '>', '<=', '>=', '=') and len(args) == 2:
+                return '(%s %s %s)' % (a0, op, self.expr(args[1]))
+            if op == '[]':
+                return '%s[%s]' % (a0, self.expr(args[1]))
+            self.brk(n, 'iterator operator %s' % nm)
         if args and any(ptrlike(self.T.cls(a['type'])) is not None for a in args[:2]) and rd.get('name') in ('operator->', 'operator*', 'operator=', 'operator==', 'operator!=', 'operator bool'):
             nm = rd['name']
             a0 = self.expr(args[0])
@@ -1386,6 +1441,12 @@ class FnLower:
     def e_CXXConstructExpr(self, n):
         cls = self.T.cls(n['type'])
         args = list(n.get('inner', []))
+        if iterlike(cls) is not None:
+            if len(args) == 1:
+                return '((%s)%s)' % (self.T.c(n['type']), self.expr(args[0]))
+            if not args:
+                return '((%s)0)' % self.T.c(n['type'])
+            self.brk(n, 'iterator construction')
         if ptrlike(cls) is not None:
             args = [a for a in args if a.get('kind') != 'CXXDefaultArgExpr']
             if not args:
